@@ -52,9 +52,8 @@ func (p *Program) verifyFunc(key string, mode string) (u *Unit) {
 	e := p.newEncFor(key)
 	u.Enc = e
 	e.topFC = fc
-	if mode == "sweep" {
+	if mode == "safety" {
 		u.Kind = "sweep"
-		e.sweep = true
 	}
 	if mode == "nosafety" {
 		e.safety = false
@@ -261,7 +260,7 @@ func (p *Program) verifyFunc(key string, mode string) (u *Unit) {
 	}
 	e.addAxioms()
 	// reachability covers: the preconditions are satisfiable and every return is reachable
-	if mode != "sweep" && mode != "own" {
+	if mode != "own" {
 		e.addObl(&Obligation{Name: shortKey(key) + "#cover[entry]", Kind: "cover", Func: shortKey(key), Guard: "true", Goal: "false", IsCover: true, Text: "preconditions satisfiable"})
 		e.addObl(&Obligation{Name: shortKey(key) + "#cover[exit]", Kind: "cover", Func: shortKey(key), Guard: exitReach, Goal: "false", IsCover: true, Text: "some return reachable"})
 		// a function returning an error must be able to succeed (guards against a
@@ -528,7 +527,8 @@ func (e *Enc) addAxioms() {
 				e.errorf("axiom %s: %v", ax.cl.Label, err)
 				continue
 			}
-			e.ctx.assert(t)
+			// axioms are background facts: visible to every obligation of the unit
+			e.ctx.litFacts = append(e.ctx.litFacts, t)
 			e.usedTrusted["axiom "+ax.cl.Label] = ax.cl.Text
 		}
 	}
